@@ -1,63 +1,9 @@
-(* Proof/C27_DecText.v — facts about the text model: the decimal digit printer and the digit-run
-   reader are inverse for every non-negative integer; the repaired defect. *)
+(* Proof/C27_DecText.v — the repaired defect and model evaluations used for non-vacuity
+   (the general theorems are in Proof/C27_Uint, C27_SInt, C27_FromStr, C27_Print). *)
 From Coq Require Import ZArith NArith List Bool Lia.
 Import ListNotations.
 Require Import RV.Lib.DecCore RV.Model.C27_DecText.
 Open Scope Z_scope.
-
-Lemma horner_app l1 : forall l2 a,
-  horner (l1 ++ l2) a = match horner l1 a with Some v => horner l2 v | None => None end.
-Proof.
-  induction l1 as [|d r IH]; intros l2 a; cbn [app horner]; [reflexivity|].
-  destruct (is_digit d); [apply IH|reflexivity].
-Qed.
-
-Lemma digit_char n : 0 <= n -> let d := Z.to_N (48 + n mod 10) in
-  is_digit d = true /\ digit_val d = n mod 10.
-Proof.
-  intros Hn d. pose proof (Z.mod_pos_bound n 10 ltac:(lia)) as Hb.
-  unfold is_digit, digit_val, d. split.
-  - apply andb_true_iff. split; apply N.leb_le; lia.
-  - rewrite Z2N.id by lia. lia.
-Qed.
-
-Lemma digits_go_spec fuel : forall n acc, 0 <= n < 2 ^ Z.of_nat fuel ->
-  exists l, digits_go fuel n acc = l ++ acc /\ forallb is_digit l = true /\
-    n < 10 ^ Z.of_nat (length l) /\
-    (forall a, horner l a = Some (a * 10 ^ Z.of_nat (length l) + n)) /\ (0 < n -> l <> []).
-Proof.
-  induction fuel as [|k IH]; intros n acc Hn.
-  - change (2 ^ Z.of_nat 0) with 1 in Hn. assert (n = 0) by lia. subst n.
-    exists []. cbn. repeat split; try lia. intros a. f_equal. lia.
-  - cbn [digits_go]. destruct (Z.leb_spec n 0) as [H0|H0].
-    + assert (n = 0) by lia. subst n. exists []. cbn. repeat split; try lia. intros a. f_equal. lia.
-    + rewrite Nat2Z.inj_succ, Z.pow_succ_r in Hn by lia.
-      pose proof (Z.div_mod n 10 ltac:(lia)) as Hdm.
-      pose proof (Z.mod_pos_bound n 10 ltac:(lia)) as Hmb.
-      assert (Hq : 0 <= n / 10 < 2 ^ Z.of_nat k) by (split; [apply Z.div_pos; lia|apply Z.div_lt_upper_bound; lia]).
-      destruct (IH (n / 10) (Z.to_N (48 + n mod 10) :: acc) Hq) as (l' & Heq & Hall & Hlt & Hh & _).
-      destruct (digit_char n ltac:(lia)) as [Hd Hv].
-      exists (l' ++ [Z.to_N (48 + n mod 10)]). rewrite Heq, <- app_assoc. cbn [app].
-      rewrite forallb_app, Hall, app_length, Nat2Z.inj_add. cbn [forallb length]. rewrite Hd.
-      change (Z.of_nat 1) with 1. rewrite Z.pow_add_r, Z.pow_1_r by lia.
-      repeat split; try reflexivity; try lia.
-      * intros a. rewrite horner_app, Hh. cbn [horner]. rewrite Hd, Hv. f_equal. lia.
-      * intros _ Hc. apply app_eq_nil in Hc. destruct Hc; discriminate.
-Qed.
-
-(* printing a non-negative integer in decimal and reading the digits back gives the integer *)
-Theorem digits_roundtrip n : 0 <= n ->
-  forallb is_digit (digits n) = true /\ horner (digits n) 0 = Some n /\ digits n <> [].
-Proof.
-  intros Hn. unfold digits. destruct (Z.leb_spec n 0) as [H0|H0].
-  - assert (n = 0) by lia. subst n. repeat split; try reflexivity. discriminate.
-  - assert (Hb : 0 <= n < 2 ^ Z.of_nat (S (Z.to_nat (Z.log2 n)))).
-    { rewrite Nat2Z.inj_succ, Z2Nat.id by apply Z.log2_nonneg.
-      destruct (Z.log2_spec n H0). lia. }
-    destruct (digits_go_spec _ n [] Hb) as (l & Heq & Hall & _ & Hh & Hne).
-    rewrite Heq, app_nil_r. repeat split; [exact Hall| |apply Hne; lia].
-    rewrite Hh; f_equal; lia.
-Qed.
 
 (* the repaired defect: before the fix a sign was accepted after the decimal point *)
 Lemma fraction_sign_refuted :
